@@ -49,7 +49,7 @@ pub fn judge_sup(sup: Sup<Trace>, script: &Script, flavor: Flavor, progress_prop
         }
         Sup::Hang(diag) => {
             for p in progress_props {
-                rep.violate(p, "hang/no-thread-can-progress", format!("{}: a call into the cache never returned: every thread is asleep and nothing is pending that could wake it (phase {})", flavor.name(), diag["phase"]), json!({"script": script.describe(script.steps.len()), "diagnosis": diag}));
+                rep.violate(p, "hang/no-thread-can-progress", format!("{}: a call into the cache never returned: {} (phase {})", flavor.name(), diag["kind"].as_str().unwrap_or("no thread can make progress"), diag["phase"]), json!({"script": script.describe(script.steps.len()), "diagnosis": diag}));
             }
             rep.count("hangs");
             None
